@@ -903,7 +903,7 @@ size_t ZSTD_CCtxParams_setParameter(ZSTD_CCtx_params* CCtxParams,
         RETURN_ERROR_IF(value!=0, parameter_unsupported, "not compiled with multithreading");
         return 0;
 #else
-        FORWARD_IF_ERROR(ZSTD_cParam_clampBounds(ZSTD_c_overlapLog, &value), "");
+        FORWARD_IF_ERROR(ZSTD_cParam_clampBounds(ZSTD_c_rsyncable, &value), "");
         CCtxParams->rsyncable = value;
         return (size_t)CCtxParams->rsyncable;
 #endif
